@@ -19,6 +19,8 @@ pub enum Engine {
     Seq,
     /// Every history is first run uninterrupted to number its crash points, then once per (sampled / every) crash point.
     Crash,
+    /// Prepared state + concurrent threads under the baton scheduler; sequential orders of the real code as reference.
+    Conc,
 }
 
 pub struct PropSpec {
@@ -43,11 +45,14 @@ pub const SPECS: &[PropSpec] = &[
     PropSpec { id: "C07", engine: Engine::Seq, profiles: &[(Profile::Breach, 50), (Profile::Chain, 20), (Profile::Expiry, 15), (Profile::Auth, 15)], level: "exploration", quick_secs: 60, quick_runs: 30_000, thorough_secs: 900, rule: RULE_SEQ },
     PropSpec { id: "C08", engine: Engine::Seq, profiles: &[(Profile::Breach, 60), (Profile::Expiry, 20), (Profile::Chain, 20)], level: "exploration", quick_secs: 60, quick_runs: 30_000, thorough_secs: 900, rule: RULE_SEQ },
     PropSpec { id: "C09", engine: Engine::Seq, profiles: &[(Profile::Expiry, 85), (Profile::Breach, 15)], level: "exploration", quick_secs: 60, quick_runs: 30_000, thorough_secs: 900, rule: RULE_SEQ },
+    PropSpec { id: "C10", engine: Engine::Conc, profiles: &[], level: "exploration", quick_secs: 75, quick_runs: 100_000, thorough_secs: 1200, rule: RULE_CONC },
     PropSpec { id: "C11", engine: Engine::Seq, profiles: &[(Profile::Resubmit, 50), (Profile::Breach, 20), (Profile::Chain, 20), (Profile::Expiry, 10)], level: "exploration", quick_secs: 60, quick_runs: 30_000, thorough_secs: 900, rule: RULE_SEQ },
     PropSpec { id: "C19", engine: Engine::Seq, profiles: &[(Profile::Chain, 70), (Profile::Breach, 30)], level: "exploration", quick_secs: 60, quick_runs: 30_000, thorough_secs: 900, rule: RULE_SEQ },
 ];
 
 const RULE_CRASH: &str = "histories as for C01 (shorter, with block-download failures and multi-block polls); each history is first executed uninterrupted to number the crash points it passes (before/after every durable write and explicit sqlite commit, before/after every node RPC and block-source call); then it is re-executed once per crash point (quick: 12 sampled per history; thorough: every point), the tower being killed there, restarted on the same sqlite file and driven through the remaining operations; evaluations = executions; non-trivial = a crash actually fired in a run with at least one breach / tracker transition / purge; distinct = distinct (history hash, crash point)";
+
+const RULE_CONC: &str = "scenarios = seeded prepared state (sequential prefix) + 2-3 simulated threads (chain thread polling prepared blocks, API threads) from 8 templates (appointment vs block with its dispute, duplicate submission, registration vs submission, replacement vs trigger, completion/refund vs request, purge vs request, reorg vs request, free mix); each scenario is first run in every sequential order of its operations (reference outcomes from the real code), then under seeded random and PCT(d=2,3) schedules at lock / condvar / node-RPC granularity; evaluations = executions; distinct = distinct (scenario, schedule trace); non-trivial = schedule with at least one preemption";
 
 pub fn spec(id: &str) -> Option<&'static PropSpec> {
     SPECS.iter().find(|s| s.id == id)
@@ -187,6 +192,14 @@ pub struct WorkerOut {
     pub crash_points_numbered: u64,
     #[serde(default)]
     pub incomplete_histories: u64,
+    #[serde(default)]
+    pub sched_steps: u64,
+    #[serde(default)]
+    pub preemptions: u64,
+    #[serde(default)]
+    pub lock_order_cycles_seen: u64,
+    #[serde(default)]
+    pub scenarios: u64,
 }
 
 fn merge_stats(out: &mut WorkerOut, st: &RunStats) {
@@ -226,6 +239,9 @@ pub fn cmd_worker(args: &[String]) -> i32 {
     });
     let known = load_known();
     let mut out = WorkerOut::default();
+    if spec.engine == Engine::Conc || args.get(9).map(|s| s == "conc").unwrap_or(false) {
+        return conc_worker(spec, root, start, step, max_index, deadline, outfile, want_digests, thorough, &known);
+    }
     let mut nontrivial: BTreeSet<u64> = BTreeSet::new();
     let mut states: BTreeSet<u64> = BTreeSet::new();
     let mut handled: BTreeSet<String> = BTreeSet::new();
@@ -344,13 +360,130 @@ pub fn cmd_worker(args: &[String]) -> i32 {
     0
 }
 
+fn fnv64(data: &[u8]) -> u64 {
+    let mut x: u64 = 0xcbf29ce484222325;
+    for b in data {
+        x ^= *b as u64;
+        x = x.wrapping_mul(0x100000001b3);
+    }
+    x
+}
+
+#[allow(clippy::too_many_arguments)]
+fn conc_worker(
+    spec: &PropSpec,
+    root: u64,
+    start: u64,
+    step: u64,
+    max_index: u64,
+    deadline: u64,
+    outfile: &str,
+    want_digests: bool,
+    thorough: bool,
+    known: &[KnownFinding],
+) -> i32 {
+    use crate::conc_check::{explore_scenario, gen_scenario, minimise_scenario, ConcReplay};
+    let mut out = WorkerOut::default();
+    let mut nontrivial: BTreeSet<u64> = BTreeSet::new();
+    let mut handled: BTreeSet<String> = BTreeSet::new();
+    let n_sched = if thorough { 16 } else { 6 };
+    let mut i = start;
+    while i < max_index && now_ms() < deadline {
+        let seed = derive(root, &format!("{}-conc", spec.id), i);
+        let sc = gen_scenario(spec.id, seed);
+        let o = explore_scenario(&sc, n_sched);
+        out.runs += o.runs;
+        out.ops += (sc.prefix.len() + sc.threads.iter().map(|t| t.len()).sum::<usize>()) as u64 * o.runs;
+        out.sched_steps += o.steps;
+        out.preemptions += o.preemptions;
+        out.lock_order_cycles_seen += o.lock_cycles;
+        out.scenarios += 1;
+        for (k, v) in o.fired.iter() {
+            *out.faults_fired.entry(k.clone()).or_insert(0) += v;
+        }
+        for (k, v) in o.probes.iter() {
+            *out.probes.entry(k.clone()).or_insert(0) += v;
+        }
+        let sc_hash = fnv64(serde_json::to_string(&sc).unwrap().as_bytes());
+        let mut dig = sc_hash;
+        for tr in o.schedules.iter() {
+            let bytes: Vec<u8> = tr.iter().map(|x| *x as u8).collect();
+            let h = fnv64(&bytes) ^ sc_hash.rotate_left(17);
+            nontrivial.insert(h);
+            dig = dig.rotate_left(5) ^ h;
+        }
+        for f in o.found.iter() {
+            dig = dig.rotate_left(7) ^ fnv64(f.signature.as_bytes());
+        }
+        if want_digests {
+            out.digests.insert(i, dig);
+        }
+        if out.samples.len() < 2 && start == 0 {
+            out.samples.push(json!({"index": i, "scenario": sc, "schedules_explored": o.schedules.iter().take(3).collect::<Vec<_>>()}));
+        }
+        let mut first_done = false;
+        for f in o.found.iter() {
+            if f.property != spec.id {
+                *out.other_property.entry(f.signature.clone()).or_insert(0) += 1;
+                continue;
+            }
+            if first_done {
+                continue;
+            }
+            first_done = true;
+            if is_known_open(known, spec.id, &f.signature).is_some() {
+                *out.known_seen.entry(f.signature.clone()).or_insert(0) += 1;
+                continue;
+            }
+            if handled.contains(&f.signature) || handled.len() >= 4 {
+                continue;
+            }
+            handled.insert(f.signature.clone());
+            let (min_sc, strat) = minimise_scenario(&sc, spec.id, &f.signature, n_sched, 40);
+            let dir = verif_dir().join("replays");
+            let _ = std::fs::create_dir_all(&dir);
+            let path = dir.join(format!("{}-{}-{}.json", spec.id, seed, sig8(&f.signature)));
+            let rf = ConcReplay {
+                property: spec.id.to_string(),
+                signature: f.signature.clone(),
+                detail: f.detail.clone(),
+                engine: "conc".into(),
+                scenario: min_sc,
+                strategy: strat.or(f.strat.clone()),
+            };
+            std::fs::write(&path, serde_json::to_string_pretty(&rf).unwrap()).unwrap();
+            let st = Command::new(std::env::current_exe().unwrap())
+                .arg("--replay")
+                .arg(&path)
+                .stdout(Stdio::piped())
+                .stderr(Stdio::piped())
+                .output()
+                .unwrap();
+            if st.status.code() != Some(1) {
+                eprintln!(
+                    "HARNESS ERROR: replay of {} in a fresh process did not reproduce (exit {:?})\n{}",
+                    path.display(),
+                    st.status.code(),
+                    String::from_utf8_lossy(&st.stdout)
+                );
+                std::process::exit(2);
+            }
+            out.violations.push((f.signature.clone(), path.to_string_lossy().to_string(), f.detail.clone()));
+        }
+        i += step;
+    }
+    out.nontrivial_hashes = nontrivial.into_iter().collect();
+    std::fs::write(outfile, serde_json::to_vec(&out).unwrap()).unwrap();
+    0
+}
+
 pub struct BatchResult {
     pub merged: WorkerOut,
     pub wall: f64,
     pub jobs: usize,
 }
 
-pub fn run_batch(id: &str, root: u64, max_runs: u64, secs: u64, jobs: usize, digests: bool, thorough: bool) -> BatchResult {
+pub fn run_batch(id: &str, root: u64, max_runs: u64, secs: u64, jobs: usize, digests: bool, thorough: bool, conc: bool) -> BatchResult {
     let t0 = Instant::now();
     let deadline = now_ms() + secs * 1000;
     let tmp = PathBuf::from(format!("/dev/shm/teos-sim-batch-{}", std::process::id()));
@@ -371,6 +504,7 @@ pub fn run_batch(id: &str, root: u64, max_runs: u64, secs: u64, jobs: usize, dig
             .arg(&outfile);
         c.arg(if digests { "digests" } else { "nodigests" });
         c.arg(if thorough { "thorough" } else { "quick" });
+        c.arg(if conc { "conc" } else { "default" });
         children.push((c.spawn().expect("spawn worker"), outfile));
     }
     let mut merged = WorkerOut::default();
@@ -395,6 +529,10 @@ pub fn run_batch(id: &str, root: u64, max_runs: u64, secs: u64, jobs: usize, dig
         merged.histories_enumerated += w.histories_enumerated;
         merged.crash_points_numbered += w.crash_points_numbered;
         merged.incomplete_histories += w.incomplete_histories;
+        merged.sched_steps += w.sched_steps;
+        merged.preemptions += w.preemptions;
+        merged.lock_order_cycles_seen += w.lock_order_cycles_seen;
+        merged.scenarios += w.scenarios;
         for (k, v) in w.probes {
             *merged.probes.entry(k).or_insert(0) += v;
         }
@@ -421,6 +559,35 @@ pub fn run_batch(id: &str, root: u64, max_runs: u64, secs: u64, jobs: usize, dig
         wall: t0.elapsed().as_secs_f64(),
         jobs,
     }
+}
+
+fn merge_into(m: &mut WorkerOut, w: WorkerOut) {
+    m.runs += w.runs;
+    m.ops += w.ops;
+    m.blocks_connected += w.blocks_connected;
+    m.blocks_disconnected += w.blocks_disconnected;
+    m.rpcs += w.rpcs;
+    m.sched_steps += w.sched_steps;
+    m.preemptions += w.preemptions;
+    m.lock_order_cycles_seen += w.lock_order_cycles_seen;
+    m.scenarios += w.scenarios;
+    for (k, v) in w.probes {
+        *m.probes.entry(k).or_insert(0) += v;
+    }
+    for (k, v) in w.faults_fired {
+        *m.faults_fired.entry(k).or_insert(0) += v;
+    }
+    for (k, v) in w.known_seen {
+        *m.known_seen.entry(k).or_insert(0) += v;
+    }
+    for (k, v) in w.other_property {
+        *m.other_property.entry(k).or_insert(0) += v;
+    }
+    let mut set: BTreeSet<u64> = m.nontrivial_hashes.iter().cloned().collect();
+    set.extend(w.nontrivial_hashes);
+    m.nontrivial_hashes = set.into_iter().collect();
+    m.samples.extend(w.samples);
+    m.violations.extend(w.violations);
 }
 
 fn arg_val(args: &[String], name: &str) -> Option<String> {
@@ -456,7 +623,13 @@ pub fn cmd_check(args: &[String]) -> i32 {
         return 2;
     }
 
-    let b = run_batch(&id, root, runs, secs, jobs, false, thorough);
+    let mut b = run_batch(&id, root, runs, if id == "C11" { secs / 2 } else { secs }, jobs, false, thorough, false);
+    if id == "C11" {
+        // second half of the budget: concurrent scenarios (deadlock search, aborts under interleavings, liveness probe)
+        let c = run_batch(&id, root, u64::MAX / 4, secs / 2, jobs, false, thorough, true);
+        merge_into(&mut b.merged, c.merged);
+        b.wall += c.wall;
+    }
     let known = load_known();
     let m = &b.merged;
 
@@ -519,6 +692,11 @@ pub fn cmd_check(args: &[String]) -> i32 {
             "histories_with_crash_points_numbered": m.histories_enumerated,
             "crash_points_numbered_in_dry_runs": m.crash_points_numbered,
             "histories_cut_short_by_the_time_budget": m.incomplete_histories,
+            "concurrent_scenarios": m.scenarios,
+            "scheduler_steps": m.sched_steps,
+            "preemptions": m.preemptions,
+            "interleavings_distinct": if spec.engine == Engine::Conc { m.nontrivial_hashes.len() as u64 } else { m.scenarios },
+            "schedules_whose_lock_order_graph_had_a_cycle": m.lock_order_cycles_seen,
             "faults_fired": m.faults_fired,
             "probes": m.probes,
             "probes_never_hit": zero_probes,
@@ -567,8 +745,8 @@ pub fn expected_probes(id: &str) -> &'static [&'static str] {
 }
 
 fn determinism_check(id: &str, root: u64, n: u64) -> Result<(), String> {
-    let a = run_batch(id, root, n, 600, 3, true, false);
-    let b = run_batch(id, root, n, 600, 7, true, false);
+    let a = run_batch(id, root, n, 600, 3, true, false, false);
+    let b = run_batch(id, root, n, 600, 7, true, false, false);
     if (a.merged.digests.len() as u64) < n || a.merged.digests.len() != b.merged.digests.len() {
         return Err(format!("expected >= {n} digests, got {} and {}", a.merged.digests.len(), b.merged.digests.len()));
     }
@@ -606,6 +784,22 @@ pub fn cmd_selftest(args: &[String]) -> i32 {
 
 pub fn cmd_replay(args: &[String]) -> i32 {
     let Some(path) = args.first() else { return 2 };
+    if let Ok(text) = std::fs::read_to_string(path) {
+        if let Ok(cr) = serde_json::from_str::<crate::conc_check::ConcReplay>(&text) {
+            return match crate::conc_check::recheck(&cr.scenario, &cr.strategy, &cr.property, &cr.signature) {
+                Some(detail) => {
+                    println!("VIOLATION property={} replay={}", cr.property, path);
+                    println!("  signature: {}", cr.signature);
+                    println!("  detail: {detail}");
+                    1
+                }
+                None => {
+                    println!("replay {path}: violation with signature '{}' NOT reproduced", cr.signature);
+                    0
+                }
+            };
+        }
+    }
     let rf: ReplayFile = match std::fs::read_to_string(path).map_err(|e| e.to_string()).and_then(|s| serde_json::from_str(&s).map_err(|e| e.to_string())) {
         Ok(r) => r,
         Err(e) => {
@@ -656,6 +850,20 @@ pub fn cmd_gen(args: &[String]) -> i32 {
 pub fn cmd_one(args: &[String]) -> i32 {
     let spec = spec(&args[0]).unwrap();
     let idx: u64 = args[1].parse().unwrap();
+    if spec.engine == Engine::Conc {
+        let seed = derive(root_seed(), &format!("{}-conc", spec.id), idx);
+        let sc = crate::conc_check::gen_scenario(spec.id, seed);
+        println!("{}", serde_json::to_string(&sc).unwrap());
+        let o = crate::conc_check::explore_scenario(&sc, 6);
+        println!("runs={} steps={} preemptions={}", o.runs, o.steps, o.preemptions);
+        for t in o.schedules.iter() {
+            println!("trace {:?}", t);
+        }
+        for f in o.found.iter() {
+            println!("FOUND {} {} :: {}", f.property, f.signature, f.detail);
+        }
+        return 0;
+    }
     let h = history_for(spec, root_seed(), idx);
     let t0 = Instant::now();
     let res = run_in_thread(&h);
